@@ -209,7 +209,7 @@ func (l *lockedBuf) String() string {
 
 // ---------- inputs with faults ----------
 
-var lexFaults = []string{"@", "$", "!", "! x", "1a", "0x1G", "1.", "1e", "1e+", "\"abc", "\"a\\", "\"a\"b", "é", "éx", "ab\"c\"", "?", "`", "\x00", "\xff", "[", "]", ",", ".", "~", "%", "&", "|", "^"}
+var lexFaults = []string{"@", "$", "!", "! x", "1a", "0x1G", "1.", "1e", "1e+", "\"abc", "\"a\\", "\"a\"b", "é", "éx", "ab\"c\"", "?", "`", "\x00", "\xff", "[", "]", ",", ".", "~", "%", "&", "|", "^", "\xef\xbb\xbf", "\xa0", "\x85", "\xc2"}
 
 // injectLexFault inserts a lexically invalid fragment at a token gap of a
 // rendered source. It returns the new source and the gap used.
@@ -223,11 +223,17 @@ func injectLexFault(t *rapid.T, src string, pos []gen.TokPos) (string, int, stri
 		at = len(src)
 	default:
 		at = pos[g].Start
+		if g == 0 && gen.Bool(t, "atbyte0") {
+			at = 0 // the very first bytes of the input
+		}
 	}
 	frag := gen.Pick(t, "lexfault", lexFaults)
 	sep := " "
-	if at == len(src) {
+	switch {
+	case at == len(src) && at > 0:
 		sep = "\n" // the last gap may end in a comment without a line end
+	case at == 0:
+		sep = ""
 	}
 	return src[:at] + sep + frag + " " + src[at:], g, frag
 }
